@@ -4,7 +4,7 @@ import itertools
 from hblib import x, jtok
 from families.common import rcase, res_of
 
-RULE = ('name class {user helper, built-in helper, data field, helper+field, neither} x tag form {bare, with '
+RULE = ('name class {user helper, built-in helper, data field, helper+field, neither, field whose value is null} x tag form {bare, with '
         'args, hash only, args+hash, block, block with hash only, subexpression, subexpression with hash only, ./n, this.n, [n], this/n} x configuration {hooks on/off, local helper via '
         'decorator on/off, strict on/off} x position {top level, inside each, inside with, inside a partial} '
         '(exhaustive every run) plus decorator-forward-effect cases; oracle: who must handle the tag per the '
@@ -17,6 +17,7 @@ NAMES = {
     'builtin+field': dict(name='len', helper=True, field=True),
     'field': dict(name='fld', helper=False, field=True),
     'neither': dict(name='zip', helper=False, field=False),
+    'nullfield': dict(name='nul', helper=False, field=True, value=None),     # the field exists, its value is null
 }
 FORMS = ['bare', 'args', 'block', 'subexpr', './', 'this.', '[]', 'this/', 'hash', 'argshash', 'blockhash', 'subhash']
 
@@ -39,7 +40,7 @@ def gen_cases(rng, tier, scale):
             continue
         fields = {'other': 'O'}
         if info['field']:
-            fields[n] = 'FIELD'
+            fields[n] = info.get('value', 'FIELD')
         data = dict(fields)
         data['one'] = [dict(fields)]
         data['ctx'] = dict(fields)
@@ -94,9 +95,10 @@ def expect(c):
     noparam = form in ('hash', 'blockhash', 'subhash')      # a call (it has hash arguments) without positional ones
     form = {'hash': 'args', 'argshash': 'args', 'blockhash': 'block', 'subhash': 'subexpr'}.get(form, form)
     explicit = form in ('./', 'this.', '[]', 'this/')
+    FV = 'FIELD' if info.get('value', 'FIELD') is not None else ''
     if explicit:
         if info['field']:
-            return ('out', 'FIELD')
+            return ('out', FV)
         return ('missing',)
     if c['local']:
         return ('prefix', 'local(' + n + ':')
@@ -111,7 +113,7 @@ def expect(c):
         return ('out', '0')
     if form == 'bare':
         if info['field']:
-            return ('out', 'FIELD')
+            return ('out', FV)
         return ('missing',)
     # call with arguments / block / subexpression and no helper
     if form == 'block':
